@@ -54,7 +54,7 @@ var impWants = []impWant{
 	{dir: "formats/fasta", pkg: "fastard", funcs: []string{"reader.read", "reader.iter"}, errZ: true},
 	{dir: "formats/fastq", pkg: "fastq", funcs: []string{"Fastq.Write"}, join: true},
 	{dir: "formats/fastq", pkg: "fastqrd", funcs: []string{"reader.read", "reader.iter"}, errZ: true, join: true},
-	{dir: "formats/bed", pkg: "bed", funcs: []string{"BED.Write", "parseLine"}, join: true},
+	{dir: "formats/bed", pkg: "bed", funcs: []string{"BED.Write", "parseLine", "reader.read"}, join: true, errZ: true},
 	{dir: "formats/newick", pkg: "newick", funcs: []string{"quoted", "nameFromText", "nameToText", "Node.traverse"}, floatAs: "F"},
 }
 
@@ -97,6 +97,7 @@ type impTr struct {
 	stream   bool // the receiver is a reader over a *bufio.Reader: the stream state rd__ is threaded
 	label    string
 	streamTy string
+	recv     string // the reader object's record (fields other than the bufio one), returned with rd__
 	results  *types.Tuple
 	loopVars []map[types.Object]bool
 }
@@ -261,6 +262,22 @@ func (t *impTr) zero(ty types.Type) string {
 	panic(t.fnName + ": no zero value for " + ty.String())
 }
 
+// withoutBufio drops the *bufio.Reader / *bufio.Scanner fields of a reader struct: they are
+// the threaded stream state, not part of the record.
+func withoutBufio(s *types.Struct) *types.Struct {
+	var fs []*types.Var
+	for i := 0; i < s.NumFields(); i++ {
+		if ts := s.Field(i).Type().String(); strings.HasSuffix(ts, "bufio.Reader") || strings.HasSuffix(ts, "bufio.Scanner") {
+			continue
+		}
+		fs = append(fs, s.Field(i))
+	}
+	if len(fs) == s.NumFields() {
+		return s
+	}
+	return types.NewStruct(fs, nil)
+}
+
 // record emits the Record of a named struct type (once), with one setter per field. A type
 // that refers to itself (newick.Node) becomes an Inductive with projections by match.
 func (t *impTr) record(n *types.Named) {
@@ -273,6 +290,7 @@ func (t *impTr) record(n *types.Named) {
 	rn := "imp_" + t.pkg + "_" + name
 	var fields, ftys []string
 	recursive := false
+	s = withoutBufio(s)
 	for i := 0; i < s.NumFields(); i++ {
 		fty := t.ty(s.Field(i).Type())
 		if strings.Contains(fty, rn) {
@@ -815,6 +833,8 @@ func (t *impTr) call(e *ast.CallExpr, pre *[]opener) string {
 				t.fail(e, "strings.Split with a separator that is not a one-byte constant")
 			}
 			return fmt.Sprintf("(split_on %d%%N %s)", constant.StringVal(sep.Value)[0], t.ex(e.Args[0], pre))
+		case "strings.TrimSuffix":
+			return fmt.Sprintf("(go_trim_suffix %s %s)", t.ex(e.Args[0], pre), t.ex(e.Args[1], pre))
 		case "strings.ReplaceAll":
 			return fmt.Sprintf("(go_replace_all %s %s %s)", t.ex(e.Args[0], pre), t.ex(e.Args[1], pre), t.ex(e.Args[2], pre))
 		case "fmt.Fprintf":
@@ -823,7 +843,11 @@ func (t *impTr) call(e *ast.CallExpr, pre *[]opener) string {
 			}
 			chunk := t.fmtChunk(e, pre)
 			v := t.fresh()
-			*pre = append(*pre, opener{fmt.Sprintf("(let out__ := out__ ++ [%s] in let %s := (0%%Z, false) in ", chunk, v), ")"})
+			noErr := "false"
+			if t.errZ {
+				noErr = "0%Z"
+			}
+			*pre = append(*pre, opener{fmt.Sprintf("(let out__ := out__ ++ [%s] in let %s := (0%%Z, %s) in ", chunk, v, noErr), ")"})
 			return v
 		case "bytes.Compare":
 			return fmt.Sprintf("(go_bytes_compare %s %s)", t.ex(e.Args[0], pre), t.ex(e.Args[1], pre))
@@ -1389,6 +1413,14 @@ func (t *impTr) assign(s *ast.AssignStmt, pre *[]opener) {
 		if !ok {
 			t.fail(s, "unsupported multi-value assignment")
 		}
+		if o := t.calleeObj(call.Fun); o != nil && t.stream && isBufioMethod(o) && o.Name() == "ReadString" && len(s.Lhs) == 2 {
+			d := t.ex(call.Args[0], pre)
+			b, e := t.fresh(), t.fresh()
+			*pre = append(*pre, opener{fmt.Sprintf("let '(%s, %s, rd__) := go_readstring rd__ %s in ", b, e, d), ""})
+			t.store(s.Lhs[0], b, pre)
+			t.store(s.Lhs[1], e, pre)
+			return
+		}
 		if o := t.calleeObj(call.Fun); o != nil && t.stream && isBufioMethod(o) && o.Name() == "ReadByte" && len(s.Lhs) == 2 {
 			b, e := t.fresh(), t.fresh()
 			*pre = append(*pre, opener{fmt.Sprintf("let '(%s, %s, rd__) := go_readbyte rd__ in ", b, e), ""})
@@ -1400,14 +1432,22 @@ func (t *impTr) assign(s *ast.AssignStmt, pre *[]opener) {
 			lib := ""
 			switch o.Pkg().Path() + "." + o.Name() {
 			case "strconv.Atoi":
-				lib = "go_atoi " + t.ex(call.Args[0], pre)
+				lib = "go_atoi "
+				if t.errZ {
+					lib = "go_atoi_z "
+				}
+				lib += t.ex(call.Args[0], pre)
 			case "strconv.ParseUint":
 				b, bok := t.info.Types[call.Args[1]]
 				w, wok := t.info.Types[call.Args[2]]
 				if !bok || !wok || b.Value == nil || w.Value == nil || b.Value.ExactString() != "0" || w.Value.ExactString() != "8" {
 					t.fail(s, "strconv.ParseUint with a base / size other than 0, 8")
 				}
-				lib = "go_parse_uint_0_8 " + t.ex(call.Args[0], pre)
+				lib = "go_parse_uint_0_8 "
+				if t.errZ {
+					lib = "go_parse_uint_0_8_z "
+				}
+				lib += t.ex(call.Args[0], pre)
 			}
 			if lib != "" {
 				v, e := t.fresh(), t.fresh()
@@ -1678,6 +1718,7 @@ func (t *impTr) function(fd *ast.FuncDecl, coqName string) *impFn {
 	t.fnName = fd.Name.Name
 	var params []string
 	t.stream = false
+	t.recv = ""
 	addParam := func(n *ast.Ident) {
 		o := t.info.Defs[n]
 		if o.Type().String() == "io.Writer" {
@@ -1691,6 +1732,11 @@ func (t *impTr) function(fd *ast.FuncDecl, coqName string) *impFn {
 						t.stream = true
 						t.streamTy = "go_stream"
 						params = append(params, "(rd__ : go_stream)")
+						if st.NumFields() > 1 {
+							// its other fields are a record that is threaded and returned too
+							t.recv = t.nameOf(o)
+							params = append(params, fmt.Sprintf("(%s : %s)", t.recv, t.ty(o.Type())))
+						}
 						return
 					}
 					if strings.HasSuffix(st.Field(i).Type().String(), "bufio.Scanner") {
@@ -1809,9 +1855,16 @@ func (t *impTr) function(fd *ast.FuncDecl, coqName string) *impFn {
 			inner := t.retWrap
 			t.retWrap = func(v string) string {
 				r := inner(v) // "Ret (...)" or "Ret tt"
+				if t.recv != "" {
+					return "Ret (rd__, " + t.recv + ", " + strings.TrimPrefix(r, "Ret ") + ")"
+				}
 				return "Ret (rd__, " + strings.TrimPrefix(r, "Ret ") + ")"
 			}
-			rt = "(" + t.streamTy + " * " + rt + ")"
+			if t.recv != "" {
+				rt = "(" + t.streamTy + " * imp_" + t.pkg + "_reader * " + rt + ")"
+			} else {
+				rt = "(" + t.streamTy + " * " + rt + ")"
+			}
 		}
 		text = wrapOpeners(pre, t.block(body, end, nil))
 	}
